@@ -38,6 +38,10 @@ func gid() int64 {
 	return id
 }
 
+// linLate: how often the scheduler of the execution being written up moved on without the released request having
+// parked or finished (then the recorded order is not the whole truth and the small-step replay is not applied)
+var linLate int
+
 var tidByG sync.Map // goroutine id -> thread (request) number of the running concurrent execution
 
 func curTid() int {
@@ -58,6 +62,7 @@ type sched struct {
 	op     map[int]string
 	done   map[int]bool
 	wake   chan struct{}
+	late   int // releases after which the thread neither parked again nor finished within the settle time
 }
 
 func newSched() *sched {
@@ -100,7 +105,7 @@ func (s *sched) snapshot(n int) (enabled []int, allDone bool) {
 }
 
 // settled waits until thread tid is parked again or finished, or the settle time has passed.
-func (s *sched) settled(tid int, d time.Duration) {
+func (s *sched) settled(tid int, d time.Duration) bool {
 	deadline := time.After(d)
 	for {
 		s.mu.Lock()
@@ -108,12 +113,12 @@ func (s *sched) settled(tid int, d time.Duration) {
 		f := s.done[tid]
 		s.mu.Unlock()
 		if p || f {
-			return
+			return true
 		}
 		select {
 		case <-s.wake:
 		case <-deadline:
-			return
+			return false
 		}
 	}
 }
@@ -177,7 +182,9 @@ func (s *sched) runWith(n int, choose chooser, settle time.Duration) (factors []
 		close(ch)
 		// the released thread parks again, finishes, or is blocked inside the call (then it stays in flight);
 		// threads that were blocked may have been freed by this step: give them the settle time too
-		s.settled(tid, settle)
+		if !s.settled(tid, settle) {
+			s.late++ // still running (slow machine) or blocked inside the call: from here on the order is not fully known
+		}
 		for t := 0; t < n; t++ {
 			if t != tid {
 				s.mu.Lock()
@@ -512,7 +519,7 @@ func writeLin(t *traceWriter, s *session, execNo int, c concCase, storeKind stri
 	if !hung {
 		final = s.statesOf()
 	}
-	t.line("LIN %s case=%s store=%s init=%s final=%s hung=%d order=%s", s.id, c.name, storeKind, init, final, h, fmt.Sprint(order))
+	t.line("LIN %s case=%s store=%s init=%s final=%s hung=%d late=%d order=%s", s.id, c.name, storeKind, init, final, h, linLate, fmt.Sprint(order))
 }
 
 func runConcExec(t *traceWriter, execNo int, storeKind, scratch string, c concCase, key logKey, wkeys []witKey, choices []int, ch chooser) ([]int, bool) {
@@ -538,7 +545,9 @@ func runConcExec(t *traceWriter, execNo int, storeKind, scratch string, c concCa
 			sc.finish(i)
 		}(i, r)
 	}
-	settle := 2 * time.Millisecond
+	// in-memory store: nothing can block between two yield points, so the settle time is only a safety net (a loaded
+	// machine must not make the scheduler move on while the released request is still running)
+	settle := 300 * time.Millisecond
 	if storeKind != "mem" {
 		settle = 40 * time.Millisecond
 	}
@@ -550,7 +559,9 @@ func runConcExec(t *traceWriter, execNo int, storeKind, scratch string, c concCa
 	} else {
 		factors, order, ok = sc.run(len(reqs), choices, settle)
 	}
+	linLate = sc.late
 	writeLin(t, s, execNo, c, storeKind, init, reqs, order, !ok)
+	linLate = 0
 	s.t.line("END %s", s.id)
 	if ok {
 		closeFn()
